@@ -492,4 +492,275 @@ theorem pk_sum_bytes (es : List Entry) :
     · simp only [List.map_cons, List.sum_cons, List.filter_cons_of_neg hr]
       rw [← ih]
       simp [pkBytes, hr]
+/-! ## what the entries are made of -/
+
+theorem pk_readFile_ok {fs : FS} {path c : Str} (h : fs.readFile path = .ok c) :
+    ∃ p perm mt, fs.stat path = .ok (p, .file perm mt c) ∧ fs.lookup p = some (.file perm mt c) := by
+  unfold FS.readFile at h
+  split at h
+  · rename_i p perm mt c' hs
+    cases h
+    refine ⟨p, perm, mt, hs, ?_⟩
+    unfold FS.stat at hs
+    split at hs
+    · cases hs
+    · split at hs
+      · cases hs
+      · rename_i hm
+        cases hs
+        exact hm
+  · cases h
+  · cases h
+  · cases h
+
+/-- every symlink entry was accepted by `validSymlink` at the on-disk path of a symlink with that
+target -/
+def PackLinksOK (fs : FS) (cwd : Str) (o : PackOpts) (root : Str) (st : PState) : Prop :=
+  ∀ e ∈ st.entries, e.isSymlink = true →
+    ∃ path, fs.lstat path = .ok (.link e.link) ∧ validSymlink cwd o.allow root path e.link = true
+
+/-- every regular entry's body is the content of a regular file of the filesystem -/
+def PackBodiesOK (fs : FS) (st : PState) : Prop :=
+  ∀ e ∈ st.entries, e.isRegular = true → ∃ p perm mt, fs.lookup p = some (.file perm mt e.body)
+
+theorem PackEmit.linkOK {fs : FS} {cwd : Str} {o : PackOpts} {root : Str} {e : Entry} {k : Nat}
+    (h : PackEmit fs cwd o root e k) (hs : e.isSymlink = true) :
+    ∃ path, fs.lstat path = .ok (.link e.link) ∧ validSymlink cwd o.allow root path e.link = true := by
+  cases h with
+  | dir sub perm mt => exact absurd hs (by simp [Entry.isSymlink, tDir, tSymlink])
+  | file path sub perm mt content hl => exact absurd hs (by simp [Entry.isSymlink, tReg, tSymlink])
+  | symlink path sub target hl hv => exact ⟨path, hl, hv⟩
+  | deref => exact absurd hs (by simp [Entry.isSymlink, tReg, tSymlink])
+
+theorem PackEmit.bodyOK {fs : FS} {cwd : Str} {o : PackOpts} {root : Str} {e : Entry} {k : Nat}
+    (h : PackEmit fs cwd o root e k) (hr : e.isRegular = true) :
+    ∃ p perm mt, fs.lookup p = some (.file perm mt e.body) := by
+  cases h with
+  | dir sub perm mt => exact absurd hr (by simp [Entry.isRegular, tDir, tReg, tRegA])
+  | file path sub perm mt content hl =>
+    obtain ⟨p, _, hp⟩ := pk_lstat_ok hl
+    exact ⟨p, perm, mt, hp⟩
+  | symlink path sub target hl hv => exact absurd hr (by simp [Entry.isRegular, tReg, tRegA, tSymlink])
+  | deref path sub target absTarget perm mt content body hd hl hv ht hb hlen =>
+    obtain ⟨p, perm', mt', _, hp⟩ := pk_readFile_ok hb
+    exact ⟨p, perm', mt', hp⟩
+
+theorem pkExtend_entries_mem {st : PState} {L : List (Entry × Nat)} {e : Entry}
+    (h : e ∈ (pkExtend st L).entries) : e ∈ st.entries ∨ ∃ k, (e, k) ∈ L := by
+  simp only [pkExtend, List.mem_append, List.mem_map] at h
+  rcases h with h | ⟨x, hx, rfl⟩
+  · exact Or.inl h
+  · exact Or.inr ⟨x.2, hx⟩
+
+theorem PackEmits.linksOK {fs : FS} {cwd : Str} {o : PackOpts} {root : Str} {st st' : PState}
+    (h : PackEmits fs cwd o root st st') (hm : PackLinksOK fs cwd o root st) : PackLinksOK fs cwd o root st' := by
+  obtain ⟨L, hL, e⟩ := h
+  subst e
+  intro e he hs
+  rcases pkExtend_entries_mem he with h | ⟨k, hk⟩
+  · exact hm e h hs
+  · exact (hL _ hk).linkOK hs
+
+theorem PackEmits.bodiesOK {fs : FS} {cwd : Str} {o : PackOpts} {root : Str} {st st' : PState}
+    (h : PackEmits fs cwd o root st st') (hm : PackBodiesOK fs st) : PackBodiesOK fs st' := by
+  obtain ⟨L, hL, e⟩ := h
+  subst e
+  intro e he hs
+  rcases pkExtend_entries_mem he with h | ⟨k, hk⟩
+  · exact hm e h hs
+  · exact (hL _ hk).bodyOK hs
+/-- with dereferencing off, a regular entry is a regular file that `Lstat` saw at a walk path -/
+theorem PackEmit.bodyDirect {fs : FS} {cwd : Str} {o : PackOpts} {root : Str} {e : Entry} {k : Nat}
+    (h : PackEmit fs cwd o root e k) (hd : o.dereference = false) (hr : e.isRegular = true) :
+    ∃ path perm mt, fs.lstat path = .ok (.file perm mt e.body) := by
+  cases h with
+  | dir sub perm mt => exact absurd hr (by simp [Entry.isRegular, tDir, tReg, tRegA])
+  | file path sub perm mt content hl => exact ⟨path, perm, mt, hl⟩
+  | symlink path sub target hl hv => exact absurd hr (by simp [Entry.isRegular, tReg, tRegA, tSymlink])
+  | deref path sub target absTarget perm mt content body hd' => rw [hd] at hd'; cases hd'
+
+theorem PackEmits.bodiesDirect {fs : FS} {cwd : Str} {o : PackOpts} {root : Str} {st st' : PState}
+    (h : PackEmits fs cwd o root st st') (hd : o.dereference = false)
+    (hm : ∀ e ∈ st.entries, e.isRegular = true → ∃ path perm mt, fs.lstat path = .ok (.file perm mt e.body)) :
+    ∀ e ∈ st'.entries, e.isRegular = true → ∃ path perm mt, fs.lstat path = .ok (.file perm mt e.body) := by
+  obtain ⟨L, hL, e⟩ := h
+  subst e
+  intro e he hs
+  rcases pkExtend_entries_mem he with h | ⟨k, hk⟩
+  · exact hm e h hs
+  · exact (hL _ hk).bodyDirect hd hs
+
+/-! ## how a result travels up -/
+
+section
+variable (fs : FS) (cwd : Str) (o : PackOpts) (rules : Option (List Rule)) (root src dst : Str)
+
+/-- the callback on a symlink that passes the ignore tests, is not the root itself, fails
+`validSymlink`, with dereferencing off: illegal slug, state untouched -/
+theorem pk_visit_link_illegal (fuel : Nat) (path target sub0 sub : Str) (st : PState)
+    (h1 : pathRel src path = some sub0) (h2 : sub0 ≠ dot) (h3 : (ruleExcludes rules sub0).1 = false)
+    (h4 : pathRel root (replaceFirst path src dst) = some sub) (h5 : sub ≠ dot)
+    (hv : validSymlink cwd o.allow root path target = false) (hd : o.dereference = false) :
+    visit fs cwd o rules root src dst (fuel + 1) path (.link target) st = (st, .stop .illegal) := by
+  rw [visit]
+  · simp [h1, h2, h3, h4, h5, hv, hd]
+  · intro _ _ h; cases h
+
+theorem pk_walkNode_stop_of_visit (fuel : Nat) (path : Str) (node : Node) (st st' : PState) (x : PResult)
+    (h : visit fs cwd o rules root src dst fuel path node st = (st', .stop x)) :
+    walkNode fs cwd o rules root src dst (fuel + 1) path node st = (st', .stop x) := by
+  cases node with
+  | dir perm mt => rw [walkNode]; simp [h]
+  | file perm mt c => rw [walkNode]; exact h; intro _ _ h; cases h
+  | link t => rw [walkNode]; exact h; intro _ _ h; cases h
+  | special => rw [walkNode]; exact h; intro _ _ h; cases h
+
+theorem pk_walkNode_dir_cont (fuel : Nat) (path : Str) (perm : Nat) (mt : Int) (st st1 : PState) (p : PPath)
+    (h : visit fs cwd o rules root src dst fuel path (.dir perm mt) st = (st1, .cont))
+    (hp : fs.resolvePath path true = .ok p) :
+    walkNode fs cwd o rules root src dst (fuel + 1) path (.dir perm mt) st =
+      walkChildren fs cwd o rules root src dst fuel path (fs.readdir p) st1 := by
+  rw [walkNode]; simp [h, hp]
+
+theorem pk_walkChildren_stop_of_child (fuel : Nat) (path name : Str) (rest : List Str) (child : Node)
+    (st st1 : PState) (x : PResult) (hl : fs.lstat (pathJoin path name) = .ok child)
+    (h : walkNode fs cwd o rules root src dst fuel (pathJoin path name) child st = (st1, .stop x)) :
+    walkChildren fs cwd o rules root src dst (fuel + 1) path (name :: rest) st = (st1, .stop x) := by
+  rw [walkChildren]; simp [hl, h]
+
+theorem pk_walkChildren_cont_of_child (fuel : Nat) (path name : Str) (rest : List Str) (child : Node)
+    (st st1 : PState) (hl : fs.lstat (pathJoin path name) = .ok child)
+    (h : walkNode fs cwd o rules root src dst fuel (pathJoin path name) child st = (st1, .cont)) :
+    walkChildren fs cwd o rules root src dst (fuel + 1) path (name :: rest) st =
+      walkChildren fs cwd o rules root src dst fuel path rest st1 := by
+  rw [walkChildren]; simp [hl, h]
+
+end
+
+theorem pk_pack_stop (fs : FS) (cwd : Str) (o : PackOpts) (src : Str) (info n : Node) (st : PState) (x : PResult)
+    (hi : pkRootInfo fs cwd src = .ok info) (hn : fs.lstat (pkRoot fs cwd src) = .ok n)
+    (h : walkNode fs cwd o (pkRules fs cwd o src) (pkRoot fs cwd src) (pkRoot fs cwd src) (pkRoot fs cwd src)
+      packFuel (pkRoot fs cwd src) n pkEmpty = (st, .stop x)) :
+    pack fs cwd o src = (st, x) := by
+  rw [pk_pack_eq]; simp [hi, hn, h, pkFinish]
+/-! ## where an illegal-slug result comes from -/
+
+theorem pk_resolveExternalLink_err (fs : FS) : ∀ (fuel : Nat) (path : Str) (r : PResult),
+    resolveExternalLink fs fuel path = .error r → r = .ioerr ∨ r = .diverged := by
+  intro fuel
+  induction fuel with
+  | zero => intro path r h; simp [resolveExternalLink] at h; exact Or.inr h.symm
+  | succ fuel ih =>
+    intro path r h
+    rw [resolveExternalLink] at h
+    split at h
+    · cases h; exact Or.inl rfl
+    · simp only at h
+      split at h
+      · cases h; exact Or.inl rfl
+      · exact ih _ _ h
+      · cases h
+
+/-- the only source of the illegal-slug result: dereferencing is off and some symlink on disk
+failed `validSymlink` -/
+def PackIllegalCause (fs : FS) (cwd : Str) (o : PackOpts) (root : Str) : Prop :=
+  o.dereference = false ∧
+    ∃ path target, fs.lstat path = .ok (.link target) ∧ validSymlink cwd o.allow root path target = false
+
+theorem pk_visit_illegal (fs : FS) (cwd : Str) (o : PackOpts) (rules : Option (List Rule)) (root : Str) (fuel : Nat)
+    (ihN : ∀ src dst path node st, fs.lstat path = .ok node →
+      (walkNode fs cwd o rules root src dst fuel path node st).2 = .stop .illegal → PackIllegalCause fs cwd o root) :
+    ∀ src dst path node st, fs.lstat path = .ok node →
+      (visit fs cwd o rules root src dst (fuel + 1) path node st).2 = .stop .illegal →
+      PackIllegalCause fs cwd o root := by
+  intro src dst path node st hl
+  cases node <;> rw [visit] <;> first | (intro _ _ h; cases h) | skip
+  all_goals simp only [↓reduceIte, Bool.false_eq_true]
+  all_goals repeat' split
+  all_goals first | (intro h; cases h; done) | skip
+  · rename_i hv hd
+    intro _
+    exact ⟨by simpa using hd, path, _, hl, by simpa using hv⟩
+  · rename_i r hr
+    intro h
+    cases h
+    rcases pk_resolveExternalLink_err fs _ _ _ hr with h | h <;> cases h
+  · rename_i child hc _ _
+    exact ihN _ _ _ _ _ hc
+
+theorem pk_walk_illegal (fs : FS) (cwd : Str) (o : PackOpts) (rules : Option (List Rule)) (root : Str) :
+    ∀ fuel : Nat,
+      (∀ src dst path node st, fs.lstat path = .ok node →
+        (walkNode fs cwd o rules root src dst fuel path node st).2 = .stop .illegal →
+        PackIllegalCause fs cwd o root) ∧
+      (∀ src dst path names st,
+        (walkChildren fs cwd o rules root src dst fuel path names st).2 = .stop .illegal →
+        PackIllegalCause fs cwd o root) ∧
+      (∀ src dst path node st, fs.lstat path = .ok node →
+        (visit fs cwd o rules root src dst fuel path node st).2 = .stop .illegal →
+        PackIllegalCause fs cwd o root) := by
+  intro fuel
+  induction fuel with
+  | zero =>
+    refine ⟨?_, ?_, ?_⟩
+    · intro src dst path node st _; rw [walkNode]; intro h; cases h
+    · intro src dst path names st; rw [walkChildren]; intro h; cases h
+    · intro src dst path node st _; rw [visit]; intro h; cases h
+  | succ fuel ih =>
+    obtain ⟨ihN, ihC, ihV⟩ := ih
+    refine ⟨?_, ?_, ?_⟩
+    · intro src dst path node st hl
+      have hv := ihV src dst path _ st hl
+      cases node with
+      | dir perm mt =>
+        rw [walkNode]
+        simp only
+        split
+        · split
+          · intro h; cases h
+          · exact ihC _ _ _ _ _
+        · rename_i hne
+          intro h
+          exact hv h
+      | file perm mt c => rw [walkNode]; exact hv; intro _ _ h; cases h
+      | link t => rw [walkNode]; exact hv; intro _ _ h; cases h
+      | special => rw [walkNode]; exact hv; intro _ _ h; cases h
+    · intro src dst path names st
+      cases names with
+      | nil => rw [walkChildren]; intro h; cases h
+      | cons name rest =>
+        rw [walkChildren]
+        simp only
+        split
+        · intro h; cases h
+        · rename_i child hc
+          have hn := ihN src dst _ _ st hc
+          split
+          · exact ihC _ _ _ _ _
+          · split
+            · exact ihC _ _ _ _ _
+            · intro h; cases h
+          · rename_i x hx
+            intro h
+            cases h
+            exact hn hx
+    · exact pk_visit_illegal fs cwd o rules root fuel ihN
+
+/-- `Pack` reports an illegal slug only when dereferencing is off and some symlink failed
+`validSymlink` -/
+theorem pk_pack_illegal (fs : FS) (cwd : Str) (o : PackOpts) (src : Str)
+    (h : (pack fs cwd o src).2 = .illegal) : PackIllegalCause fs cwd o (pkRoot fs cwd src) := by
+  rw [pk_pack_eq] at h
+  split at h
+  · cases h
+  · split at h
+    · cases h
+    · rename_i n hn
+      refine (pk_walk_illegal fs cwd o (pkRules fs cwd o src) (pkRoot fs cwd src) packFuel).1
+        (pkRoot fs cwd src) (pkRoot fs cwd src) (pkRoot fs cwd src) n pkEmpty hn ?_
+      unfold pkFinish at h
+      simp only at h
+      split at h
+      · rename_i r hr; rw [hr, h]
+      · cases h
 end Slug
